@@ -82,6 +82,14 @@ def build_history(case):
             desc["silent"] = False
             hist = [(p0, {"kind": "initial"}), (p1, desc)]
             prog = p1
+    if case["idx"] % 8 == 2:
+        # aimed: two aliases through which one function calls two different functions exchange their targets
+        made = progs.make_alias_swap(rng, prog)
+        if made is not None:
+            p0, p1, desc = made
+            desc["silent"] = False
+            hist = [(p0, {"kind": "initial"}), (p1, desc)]
+            prog = p1
     if case["idx"] % 4 == 3:
         # aimed: a variable takes the value that another variable read by the same function already holds
         made = progs.make_equal_vars(prog)
